@@ -231,7 +231,12 @@ func (t *tr) modItemHeaps(fs *FuncSpec, item ast.Expr) []string {
 	for k, v := range t.heap0 {
 		tmp[k] = v
 	}
+	t.dryRun++
+	savedFacts := t.specFacts
+	t.specFacts = map[string]bool{}
 	tg, err := t.evalModItem(item, env, tmp)
+	t.specFacts = savedFacts
+	t.dryRun--
 	if err != nil {
 		var hs []string
 		for _, s := range realHeapSorts {
